@@ -361,6 +361,8 @@ Arguments stack {D} _. Arguments locals {D} _.
 Arguments Normal {D} _ _. Arguments Branch {D} _ _ _. Arguments Ret {D} _ _. Arguments Trap {D} _ _. Arguments OutOfFuel {D}.
 Arguments s_funcs {D} _. Arguments s_insts {D} _. Arguments s_globals {D} _. Arguments s_mems {D} _.
 Arguments s_tabs {D} _. Arguments s_log {D} _.
+Arguments IOk {D} _ _. Arguments ITrap {D} _ _. Arguments IFuel {D}.
+Arguments SOk {D} _ _. Arguments STrap {D} _. Arguments SNot {D}.
 Arguments RVals {D} _. Arguments RTrap {D} _. Arguments RFuel {D}.
 
 (* ---------------------------------------------------------------- the specification domain *)
@@ -379,4 +381,4 @@ Definition spec_bin (o : binop) (x y : Z) : option Z :=
   end.
 Definition Spec : domain :=
   {| val := Z; of_const := fun w c => modN w c; d_un := spec_un; d_bin := spec_bin;
-     truthy := fun x => negb (x =? 0); to_u32 := fun x => x; to_bits := fun x => x; of_bits := fun _ b => b |}.
+     truthy := fun x => negb (x =? 0); to_u32 := fun x => modN 32 x; to_bits := fun x => x; of_bits := fun _ b => b |}.
